@@ -123,6 +123,30 @@ pub fn judge_bytes(bytes: &[u8], ctx: &mut Ctx, case: &dyn Fn() -> Value, cli_sa
     Ok(())
 }
 
+/// A file whose first method has `n` instructions and is followed by a short one.
+fn long_method_file(n: usize) -> Model {
+    use crate::bc::model::Ins;
+    let mut code = Vec::with_capacity(n);
+    while code.len() + 2 < n {
+        code.push(Ins::Lit(1));
+        code.push(Ins::Drop);
+    }
+    while code.len() < n {
+        code.push(Ins::Lit(1));
+    }
+    Model {
+        consts: vec![
+            Const::Str("long".into()),
+            Const::Int(7),
+            Const::Method { name: 0, nargs: 0, nlocals: 0, code },
+            Const::Str("short, \"quoted\" #3".into()),
+            Const::Method { name: 3, nargs: 0, nlocals: 0, code: vec![Ins::Lit(1), Ins::Return] },
+        ],
+        globals: vec![2, 4],
+        entry: 2,
+    }
+}
+
 impl Property for C17 {
     fn id(&self) -> &'static str {
         "C17"
@@ -131,7 +155,7 @@ impl Property for C17 {
         true
     }
     fn rule(&self) -> String {
-        "cases: even tapes -> compiler outputs for generated programs; odd tapes -> independently encoded models (domain B of C03 without raw CR/LF in strings, by construction; strings with quotes, #, :, commas, leading/trailing blanks, `slot 3`/`method #1 args:0` look-alikes, non-ASCII; empty classes; methods > 10000 instructions). The Display rendering (and for a sample the real `fml disassemble FILE` / stdin) is parsed by an independent listing parser and the rebuilt program (constants, per-method instruction sequences from Code[S..=E], globals, entry) must equal what the independent reader decodes from the file; indices consecutive, every code line owned by exactly one method. non-trivial: >= 2 methods and >= 1 string containing a listing delimiter; distinct by image".into()
+        "cases: even tapes -> compiler outputs for generated programs; odd tapes -> independently encoded models (domain B of C03 without raw CR/LF in strings, by construction; strings with quotes, #, :, commas, leading/trailing blanks, `slot 3`/`method #1 args:0` look-alikes, non-ASCII; empty classes; methods > 10000 instructions). The Display rendering (and for a sample the real `fml disassemble FILE` / stdin) is parsed by an independent listing parser and the rebuilt program (constants, per-method instruction sequences from Code[S..=E], globals, entry) must equal what the independent reader decodes from the file; indices consecutive, every code line owned by exactly one method. non-trivial: >= 2 methods and >= 1 string containing a listing delimiter; distinct by image Fixed cases: the checked-in .bc files and independently encoded files whose first method has 65534, 65535, 65536, 65537, 70001 and 131073 instructions, followed by a short method.".into()
     }
     fn assumptions(&self) -> Vec<String> {
         vec!["a string constant is everything between the first and the last quote of its line (strings with raw line breaks are outside the property's precondition and are counted as excluded)".into()]
@@ -155,6 +179,22 @@ impl Property for C17 {
                     v.detail = format!("[{}] {}", f.display(), v.detail);
                     out.push(v);
                 }
+            }
+        }
+        // methods around and beyond 65535 instructions (the length field of a method body is a
+        // u32, every index in the file a u16): a long method in front of a short one, so that a
+        // shortened or mis-sized body also shifts everything behind it
+        for (i, n) in [65534usize, 65535, 65536, 65537, 70001, 131073].iter().enumerate() {
+            if !ctx.shard_mine(i) {
+                continue;
+            }
+            let m = long_method_file(*n);
+            let bytes = writer::write(&m);
+            ctx.label("method-around-65535-instructions");
+            let case = || json!({"long_method_instructions": n, "bytes_len": bytes.len()});
+            if let Err(mut v) = judge_bytes(&bytes, ctx, &case, true) {
+                v.detail = format!("[method of {} instructions] {}", n, v.detail);
+                out.push(v);
             }
         }
         out
@@ -194,6 +234,11 @@ impl Property for C17 {
             if let Some(bytes) = crate::tape::unhex(t) {
                 return self.judge_tape(&bytes, ctx);
             }
+        }
+        if let Some(n) = case["long_method_instructions"].as_u64() {
+            let bytes = writer::write(&long_method_file(n as usize));
+            let c = case.clone();
+            return judge_bytes(&bytes, ctx, &move || c.clone(), true);
         }
         if let Some(b) = case["bytes"].as_str() {
             let bytes = crate::tape::unhex(b).unwrap_or_default();
